@@ -144,6 +144,7 @@ PROPS = {
         'level_note': 'Partial for key randomness. D9 (Host cut at the first @) was found here and fixed.',
     },
     'C17': {
+        'modules': ['C17', 'C17Client'],
         'families': [('corpus:hs', 0, 0), ('hs:server', 2500, 60000), ('hs:client', 1500, 30000)],
         'rule': 'segmentations of valid and invalid heads into up to 64+ reads, WouldBlock before any read / write / flush, partial write sizes, '
                 '1-byte drips, heads above 64 KiB, 125 headers',
@@ -156,7 +157,8 @@ PROPS = {
                       'unchanged; for every benign schedule (any segmentation of the head, any WouldBlock placement, any partial write sizes) the server '
                       'handshake is either still interrupted having written a prefix of the right bytes or has ended exactly as the one-shot '
                       'specification says with exactly its bytes written.',
-        'level_note': 'The client-side schedule independence is covered by correspondence only (same machine code, C17_interrupt_is_identity applies).',
+        'level_note': 'Client side: C17_client_schedule_independent (any partial write sizes, any WouldBlock placement, any segmentation of the '
+                      'response head; bytes beyond the head are handed to the socket) under the assumption hstable about httparse.',
     },
     'C03': {
         'families': [('corpus:defects', 0, 0), ('ep:exhaustive', 3, 4), ('ep:close', 2500, 80000), ('ep:mixed', 800, 20000), ('ep:hostile', 500, 20000)],
@@ -205,6 +207,7 @@ PROPS = {
                       'refinement theorem of C05 (C05_segmentation_independent) together with C06_spec_messages_bounded.',
     },
     'C11': {
+        'modules': ['C11', 'C11Global'],
         'families': [('corpus:defects', 0, 0), ('ep:ping', 2000, 60000), ('ep:backpressure', 800, 20000)],
         'rule': 'sequences of pings (payload 0..125) interleaved with data, user pongs and closes, read/write/flush call patterns, '
                 'WouldBlock on any write or flush, small write buffers',
@@ -215,8 +218,8 @@ PROPS = {
                       'pending reply exactly once after everything queued before, empties the slot, drains the buffer and flushes the transport '
                       '(also through the put-back-and-retry path). Monitor on implementation traces: pongs are a subsequence of pings, none invented, '
                       'sent by the next op whose transport writes succeed.',
-        'level_note': 'The history-level statements (never lost across arbitrary histories) rest on the invariant theorem of C03/C10 and on the '
-                      'correspondence; the theorems here are per-call Hoare triples for every state.',
+        'level_note': 'History level: C11_order_no_invention (for every history the queued pongs are a sublist of the pings read and pongs written, '
+                      'in order: none invented, none reordered), C11_ping_makes_pong_pending, C13_pong_never_dropped.',
     },
     'C12': {
         'modules': ['C12', 'C12Global'],
